@@ -32,10 +32,18 @@ type scanPath struct {
 	lookahead  []string // data.Byte(index+k) reads
 	retVal     string
 	fieldStores []fieldStore
+	ops         []scanOp
 }
 
 type fieldStore struct {
 	name string
+	val  absint.Val
+}
+
+// scanOp: the effects of a path in program order (used by models that track more state).
+type scanOp struct {
+	kind string // "store", "found", "push", "pop", "call"
+	name string // field / stack expression / lexeme
 	val  absint.Val
 }
 
@@ -153,7 +161,7 @@ func buildScanModel(c *core.Ctx, pkgRel string) *scanModel {
 	}
 	sort.Strings(m.names)
 
-	effectNames := map[string]bool{"found": true, "Push": true, "Pop": true, "setContext": true, "restoreContext": true, "validateValue": true}
+	effectNames := map[string]bool{"found": true, "Push": true, "Pop": true, "validateValue": true}
 	pureNames := map[string]bool{"Len": true, "Peek": true, "Get": true, "newJSchemaErrorAtCharacter": true, "newJSchemaError": true, "NewJSchemaError": true, "F": true, "Byte": true, "SetIndex": true}
 	cfg := absint.Config{
 		InModule:  c.P.FuncInModule,
@@ -273,6 +281,7 @@ func (m *scanModel) project(o absint.Outcome) scanPath {
 		switch e.Kind {
 		case "store":
 			field := strings.TrimPrefix(e.What, "s.")
+			p.ops = append(p.ops, scanOp{"store", field, e.Args[0]})
 			switch field {
 			case "step":
 				p.next = stateNameOf(e.Args[0])
@@ -286,10 +295,21 @@ func (m *scanModel) project(o absint.Outcome) scanPath {
 			switch {
 			case strings.HasSuffix(e.What, ").found"):
 				p.finds = append(p.finds, m.lexName(e.Args[len(e.Args)-1]))
+				p.ops = append(p.ops, scanOp{"found", m.lexName(e.Args[len(e.Args)-1]), nil})
 			case strings.Contains(e.What, ").Push"):
-				p.pushes = append(p.pushes, stateNameOf(e.Args[len(e.Args)-1]))
+				p.ops = append(p.ops, scanOp{"push", e.Args[0].Key(), e.Args[len(e.Args)-1]})
+				if strings.Contains(e.Args[0].Key(), "returnToStep") {
+					p.pushes = append(p.pushes, stateNameOf(e.Args[len(e.Args)-1]))
+				} else {
+					p.stores = append(p.stores, e.String())
+				}
 			case strings.Contains(e.What, ").Pop"):
-				p.pops++
+				p.ops = append(p.ops, scanOp{"pop", e.Args[0].Key(), nil})
+				if strings.Contains(e.Args[0].Key(), "returnToStep") {
+					p.pops++
+				} else {
+					p.stores = append(p.stores, e.String())
+				}
 			default:
 				p.stores = append(p.stores, e.String())
 			}
